@@ -73,6 +73,16 @@ func typeKey(t types.Type) string {
 		return "*" + typeKey(x.Elem())
 	case *types.Slice:
 		return "[]" + typeKey(x.Elem())
+	case *types.Map:
+		return "map[" + typeKey(x.Key()) + "]" + typeKey(x.Elem())
+	case *types.Array:
+		return fmt.Sprintf("[%d]%s", x.Len(), typeKey(x.Elem()))
+	case *types.Chan:
+		return "chan " + typeKey(x.Elem())
+	case *types.Interface:
+		if x.NumMethods() == 0 {
+			return "any"
+		}
 	case *types.Basic:
 		switch x.Kind() {
 		case types.Uint8:
